@@ -128,6 +128,65 @@ theorem C13_stored_urls_ok (isUrl : Str → Bool) (hne : isUrl [] = false) (st v
         by_cases hcs : c = ' ' <;> simp [hcs] at hc
     · simp [ha] at h
 
+/-! ### histories on one object: a rendering shows the fields the object holds *now* -/
+
+/-- In any history of edits (through setters, through the monitored `tr`/`ws` lists, in place on the
+    plain `kt` list / `x` dict — arbitrary functions of the field values) and renderings on one
+    magnet object, every `str(m)` is the rendering of the field values the object holds at that
+    moment, whatever was rendered before; hence parsing it gives back exactly those values whenever
+    they are well-formed (the round-trip clause holds on the *current* state after every step). -/
+theorem C13_render_history_independent (isUrl : Str → Bool) (intO : Str → IntResult)
+    (m : MagnetObj) (ops : List MOp) :
+    (runR m ops).1 = (statesAtStr m ops).map render ∧
+    (∀ s ∈ statesAtStr m ops, WF isUrl s = true → fromString isUrl intO (render s) = .ok s) := by
+  refine ⟨?_, fun s _ h => C13_parse_render isUrl intO s h⟩
+  induction ops generalizing m with
+  | nil => rfl
+  | cons op ops ih =>
+    cases op with
+    | set g => exact ih (g m)
+    | listEdit g => exact ih (g m)
+    | plainEdit g => exact ih (g m)
+    | str => simp only [runR, statesAtStr, List.map_cons, ih m]
+
+/-- The same statement for a renderer that remembers its result until a setter or a `tr`/`ws`
+    callback fires (seeded change C13-4a) … -/
+def C13_render_memo_full : Prop :=
+  ∀ (m : MagnetObj) (ops : List MOp), (runMemo m none ops).1 = (statesAtStr m ops).map render
+
+/-- … is false: render, append a keyword in place, render again — the second string is the first. -/
+theorem C13_render_memo_counterexample : ¬ C13_render_memo_full := by
+  intro h
+  have := h { infohash := witnessHash } [.str, .plainEdit (fun m => { m with kt := m.kt ++ [['k']] }), .str]
+  revert this
+  decide
+
+/-- A memo keyed by the field **values** is faithful: it returns exactly what the code returns, in
+    every history (so such a change of the code must not alarm the check). -/
+theorem C13_render_value_memo_faithful (m : MagnetObj) (ops : List MOp)
+    (cache : Option (MagnetObj × Str)) (hc : ∀ m' s, cache = some (m', s) → s = render m') :
+    runValueMemo m cache ops = runR m ops := by
+  induction ops generalizing m cache with
+  | nil => rfl
+  | cons op ops ih =>
+    cases op with
+    | set g => exact ih (g m) cache hc
+    | listEdit g => exact ih (g m) cache hc
+    | plainEdit g => exact ih (g m) cache hc
+    | str =>
+      have hnew : ∀ m' s, some (m, render m) = some (m', s) → s = render m' := by
+        intro m' s e; cases e; rfl
+      cases cache with
+      | none => simp only [runValueMemo, runR, ih m _ hnew]
+      | some c =>
+        obtain ⟨m', s⟩ := c
+        have hs := hc m' s rfl
+        by_cases e : m' = m
+        · subst e
+          subst hs
+          simp only [runValueMemo, runR, if_true, ih m' _ hnew]
+        · simp only [runValueMemo, runR, e, if_false, ih m _ hnew]
+
 /-! ### non-vacuity -/
 
 example : WF (fun _ => true)
